@@ -87,6 +87,16 @@ func New() *Agent {
 	return a
 }
 
+// SetLenient makes the keyring accept a certificate together with a private key it was not issued for, as an agent
+// that does not cross-check the two does.
+func (a *Agent) SetLenient(v bool) {
+	if r, ok := a.Keyring.(*extRing); ok {
+		r.mu.Lock()
+		r.lenient = v
+		r.mu.Unlock()
+	}
+}
+
 // SetPlan installs the fault plan (nil = honest).
 func (a *Agent) SetPlan(p Plan) { a.mu.Lock(); a.plan = p; a.mu.Unlock() }
 
